@@ -286,27 +286,61 @@ theorem build_ok_iff (e : BExp) : (∃ t, build e = .ok t) ↔ BExp.ok e = true 
 
 /-! ### the printer -/
 
+theorem evalB_prependAnd (ρ : Nat → Bool) (lit e : BExp) :
+    evalB ρ (prependAnd lit e) = (evalB ρ lit && evalB ρ e) := by
+  fun_induction prependAnd lit e with
+  | case1 x y ih => simp [evalB, ih, Bool.and_assoc]
+  | case2 e h => simp [evalB]
+
+theorem ok_prependAnd (lit e : BExp) : BExp.ok (prependAnd lit e) = (BExp.ok lit && BExp.ok e) := by
+  fun_induction prependAnd lit e with
+  | case1 x y ih => simp [BExp.ok, ih, Bool.and_assoc]
+  | case2 e h => simp [BExp.ok]
+
+theorem evalB_expPart (ρ : Nat → Bool) (lit : BExp) (c : BDD) (ce : BExp) (h : evalB ρ ce = denote c ρ) :
+    (expPart lit c ce).elim false (evalB ρ) = (evalB ρ lit && denote c ρ) := by
+  cases c with
+  | leaf b => cases b <;> simp [expPart, denote]
+  | node v lo hi =>
+    simp only [expPart]
+    split <;> simp [evalB, evalB_prependAnd, h]
+
 /-- the printed expression denotes the diagram's function -/
 theorem printExp_denote (t : BDD) (ρ : Nat → Bool) : evalB ρ (printExp t) = denote t ρ := by
   induction t with
   | leaf b => rfl
   | node v lo hi ihl ihh =>
     rw [printExp]
-    generalize printExp lo = el at ihl ⊢
-    generalize printExp hi = eh at ihh ⊢
-    rcases lo with (_ | _) | ⟨v1, l1, h1⟩ <;> rcases hi with (_ | _) | ⟨v2, l2, h2⟩ <;>
-      simp only [expPart, evalB, ihl, ihh, if_true, Bool.false_eq_true, if_false] <;>
-      simp only [denote] <;> cases ρ v <;> simp
+    have h1 := evalB_expPart ρ (.not (.var (some v))) lo (printExp lo) ihl
+    have h2 := evalB_expPart ρ (.var (some v)) hi (printExp hi) ihh
+    generalize expPart (.not (.var (some v))) lo (printExp lo) = p1 at h1 ⊢
+    generalize expPart (.var (some v)) hi (printExp hi) = p2 at h2 ⊢
+    simp only [evalB] at h1 h2
+    simp only [denote]
+    cases hv : ρ v <;> rw [hv] at h1 h2 <;>
+      simp only [Bool.not_true, Bool.not_false, Bool.true_and, Bool.false_and] at h1 h2 <;>
+      cases p1 <;> cases p2 <;> simp only [Option.elim] at h1 h2 ⊢ <;> simp_all [evalB]
+
+theorem ok_expPart (lit : BExp) (c : BDD) (ce : BExp) (hl : BExp.ok lit = true) (h : BExp.ok ce = true) :
+    ∀ e, expPart lit c ce = some e → BExp.ok e = true := by
+  intro e he
+  cases c with
+  | leaf b => cases b <;> simp [expPart] at he; subst he; exact hl
+  | node v lo hi =>
+    simp only [expPart, Option.some.injEq] at he
+    subst he
+    split <;> simp [BExp.ok, ok_prependAnd, hl, h]
 
 theorem printExp_ok (t : BDD) : BExp.ok (printExp t) = true := by
   induction t with
   | leaf b => rfl
   | node v lo hi ihl ihh =>
     rw [printExp]
-    generalize printExp lo = el at ihl ⊢
-    generalize printExp hi = eh at ihh ⊢
-    rcases lo with (_ | _) | ⟨v1, l1, h1⟩ <;> rcases hi with (_ | _) | ⟨v2, l2, h2⟩ <;>
-      simp [expPart, BExp.ok, ihl, ihh]
+    have h1 := ok_expPart (.not (.var (some v))) lo (printExp lo) (by simp [BExp.ok]) ihl
+    have h2 := ok_expPart (.var (some v)) hi (printExp hi) (by simp [BExp.ok]) ihh
+    generalize expPart (.not (.var (some v))) lo (printExp lo) = p1 at h1 ⊢
+    generalize expPart (.var (some v)) hi (printExp hi) = p2 at h2 ⊢
+    cases p1 <;> cases p2 <;> simp_all [BExp.ok]
 
 /-- printing then parsing gives back the same diagram -/
 theorem build_printExp (t : BDD) (ho : Ord 0 t) (hr : Reduced t) : build (printExp t) = .ok t := by
